@@ -1,6 +1,6 @@
 //! C14 — differential binding of spec/Caches.tla: every complete history exported by TLC (MC_Caches, EmitHist) is
 //! executed on three real nodes
-//!   A  default cache sizes, cold;
+//!   A  default cache sizes, cold;  E  every read cache independently off / one entry / default (drawn from the history id);
 //!   B  every StoreConfig cache size 0 and the tx-verification cache emptied before every step (the cache-free node);
 //!   C  default sizes, warm: every transaction variant was submitted to the pool before the history (and removed again,
 //!      the verification cache keeps the results) and every query is issued twice;
@@ -264,6 +264,27 @@ fn one_cfg() -> StoreConfig {
     StoreConfig { header_cache_size: 1, cell_data_cache_size: 1, block_proposals_cache_size: 1, block_tx_hashes_cache_size: 1, block_uncles_cache_size: 1, block_extensions_cache_size: 1, freezer_enable: false }
 }
 
+/// mixed configuration: every read cache independently off / one entry / default size, drawn from the history id
+fn mixed_cfg(hid: u64) -> StoreConfig {
+    let d = StoreConfig::default();
+    let pick = |i: u32, dflt: usize| -> usize {
+        match (hid / 3u64.pow(i)) % 3 {
+            0 => 0,
+            1 => 1,
+            _ => dflt,
+        }
+    };
+    StoreConfig {
+        header_cache_size: pick(0, d.header_cache_size),
+        cell_data_cache_size: pick(1, d.cell_data_cache_size),
+        block_proposals_cache_size: pick(2, d.block_proposals_cache_size),
+        block_tx_hashes_cache_size: pick(3, d.block_tx_hashes_cache_size),
+        block_uncles_cache_size: pick(4, d.block_uncles_cache_size),
+        block_extensions_cache_size: pick(5, d.block_extensions_cache_size),
+        freezer_enable: false,
+    }
+}
+
 fn class_of(err: &str) -> &'static str {
     if err.contains("Immatur") {
         "immature"
@@ -296,10 +317,11 @@ fn vcache_len(n: &Node) -> usize {
 }
 
 /// run one history on one node kind; returns the log of the steps
-fn run_history(w: &mut World, kind: &str, hist: &[Value]) -> Value {
+fn run_history(w: &mut World, kind: &str, hist: &[Value], hid: u64) -> Value {
     let store = match kind {
         "B" => Some(zero_cfg()),
         "D" => Some(one_cfg()),
+        "E" => Some(mixed_cfg(hid)),
         _ => None,
     };
     let n = Node::start(&NodeCfg { assembler: false, store, ..NodeCfg::temp(&w.c) });
@@ -416,7 +438,7 @@ fn replay(args: &[String]) {
         let hist = rec["hist"].as_array().unwrap().clone();
         let mut logs = vec![];
         for kind in nodes.chars() {
-            logs.push(with_tmp("hist", || run_history(&mut w, &kind.to_string(), &hist)));
+            logs.push(with_tmp("hist", || run_history(&mut w, &kind.to_string(), &hist, rec["id"].as_u64().unwrap_or(n as u64))));
         }
         println!("{}", json!({"history": {"id": rec["id"], "hist": hist, "logs": logs}}));
         n += 1;
